@@ -29,6 +29,9 @@ type namedTerm struct {
 }
 
 type Session struct {
+	opaqueAtoms map[string]T
+	opaqueDefs  []opaqueDef
+	heapDefs map[string]heapDef
 	eng      *Engine
 	Name     string
 	decls    []string
@@ -153,6 +156,16 @@ func (s *Session) typeTag(t types.Type) T {
 	return I(int64(id))
 }
 
+// sidx is the index of element i of a slice whose window starts at off. With a literal offset it is plain
+// arithmetic; with a symbolic offset it is the function sidx(off, i) (= off + i by a global axiom), because
+// triggers that contain `+` are not matched reliably by the solvers.
+func (s *Session) sidx(off, i T) T {
+	if isNumeral(off.S) {
+		return Add(off, i)
+	}
+	return s.uf("sidx", SInt, off, i)
+}
+
 func (s *Session) strlen(x T) T {
 	f := s.declFun("strlen", []string{SInt}, SInt)
 	return T{fmt.Sprintf("(%s %s)", f, x.S), SInt}
@@ -214,6 +227,14 @@ func (s *Session) preamble() string {
 		// the empty byte string denotes the empty string
 		sb.WriteString("(assert (forall ((a (Array Int Int)) (o Int)) (! (= (bytes2str a o 0) 0) :pattern ((bytes2str a o 0)))))\n")
 	}
+	if s.declared["keyord"] {
+		// keyord embeds the (countable, total) lexicographic order of byte strings into the reals; "" is the least key
+		sb.WriteString("(declare-fun keyinv (Real) Int)\n")
+		sb.WriteString("(assert (forall ((a Int)) (! (and (>= (keyord a) 0.0) (= (keyinv (keyord a)) a)) :pattern ((keyord a)))))\n(assert (= (keyord 0) 0.0))\n")
+	}
+	if s.declared["sidx"] {
+		sb.WriteString("(assert (forall ((o Int) (i Int)) (! (= (sidx o i) (+ o i)) :pattern ((sidx o i)))))\n")
+	}
 	if s.declared["unixnano"] {
 		sb.WriteString("(assert (= (unixnano 0 0) (- 6795364578871345152)))\n")
 	}
@@ -231,13 +252,33 @@ func (s *Session) preamble() string {
 	return sb.String()
 }
 
-func (s *Session) query(o *Obligation) string {
+func (s *Session) query(o *Obligation) string { return s.queryWith(o, false) }
+
+// hasOpaque: are there opaque-predicate atoms in scope of this obligation?
+func (s *Session) hasOpaque(o *Obligation) bool {
+	for _, d := range s.opaqueDefs {
+		if d.pos <= o.Pos {
+			return true
+		}
+	}
+	return false
+}
+
+func (s *Session) queryWith(o *Obligation, reveal bool) string {
 	var sb strings.Builder
 	sb.WriteString("; obligation " + o.Name + "\n; " + strings.ReplaceAll(o.Src, "\n", " ") + "\n")
 	sb.WriteString(s.preamble())
 	for i := 0; i < o.Pos && i < len(s.asserts); i++ {
 		sb.WriteString(s.asserts[i])
 		sb.WriteString("\n")
+	}
+	if reveal {
+		for _, d := range s.opaqueDefs {
+			if d.pos <= o.Pos {
+				sb.WriteString(d.text)
+				sb.WriteString("\n")
+			}
+		}
 	}
 	sb.WriteString("(assert (not " + Imp(o.Guard, o.Formula).S + "))\n")
 	sb.WriteString("(check-sat)\n")
